@@ -76,6 +76,8 @@ fn main() {
         std::process::exit(2);
     });
 
+    // the second (nodebug) build explores different cases than the main build: derived seed
+    let seed = if runner::profile_tag().is_some() { seed ^ 0x5DEE_CE66_D000_0001 } else { seed };
     let ctx = Ctx {
         id: entry.id,
         tier,
